@@ -530,7 +530,12 @@ def work(job):
         rows = [(r0, c0, g0, d0) for r0, c0, g0, d0 in obs if c0]
         obs_term = "[" + "; ".join(f"({r0}, ({c0}, ({'true' if g0 else 'false'}, {'true' if d0 else 'false'})))" for r0, c0, g0, d0 in rows) + "]" \
             if rows else "(@nil (N * (N * (bool * bool))))"
-        res["terms"].append(("schemas", f"census_case {ab.to_coq()} {obs_term}"))
+        if ab.imprecise:
+            # the abstraction says itself that it cannot decide something in this document (e.g. a property redeclared with schemas
+            # that hold model references): no correspondence claim for the schema part of this document
+            res["imprecise"] = ab.imprecise[:3]
+        else:
+            res["terms"].append(("schemas", f"census_case {ab.to_coq()} {obs_term}"))
         # ------------------------------------------------ operations
         gen_ops = {(i["tag"], i["method"], norm_url(i["url"] or "")): (f, i) for f, i in api.items()}
         seen_modules = {}
@@ -705,3 +710,4 @@ def run(run, tier, replay=None):
                                          "note": "the generated tree / diagnostics no longer agree with the model for which C07's accounting theorems are proved"})
     run.extra["documents"] = len(results)
     run.extra["raised"] = sum(1 for r in results if r.get("raised"))
+    run.extra["schema_correspondence_skipped_abstraction_imprecise"] = sum(1 for r in results if r.get("imprecise"))
